@@ -4,6 +4,7 @@ import (
 	"encoding/json"
 	"errors"
 	"fmt"
+	"github.com/ajitpratap0/GoSQLX/pkg/lsp"
 	"strings"
 	"testing"
 
@@ -96,6 +97,15 @@ func wire(m Msg) (raw string, framed bool, reqID string) {
 		return m.Raw, true, ""
 	case "bad_header":
 		return m.Raw, false, ""
+	case "request_lowercase_header":
+		// header field names are case-insensitive (the base protocol follows HTTP): a request all the same
+		body := fmt.Sprintf(`{"jsonrpc":"2.0","id":%q,"method":%q}`, id, m.Method)
+		return fmt.Sprintf("content-length: %d\r\n\r\n%s", len(body), body), false, id
+	case "oversized_frame":
+		// a complete frame whose declared (and actual) length is one byte over the limit: its content is not a
+		// message, but the frames after it are
+		n := lsp.MaxContentLength + 1
+		return fmt.Sprintf("Content-Length: %d\r\n\r\n%s", n, strings.Repeat("x", n)), false, ""
 	}
 	return "", true, ""
 }
@@ -408,7 +418,14 @@ func genMsg(rt *rapid.T, id int, open map[string]string, feat map[string]bool) M
 		return Msg{Kind: "malformed_json", Raw: rapid.SampledFrom([]string{`{"jsonrpc":"2.0","method":`, `[1,2`, `nonsense`, `{"id":}`, `{}`, `[]`, `"str"`, `{"jsonrpc":"2.0","method":5}`}).Draw(rt, "raw")}
 	case 18:
 		feat["bad_header"] = true
-		return Msg{Kind: "bad_header", Raw: rapid.SampledFrom([]string{"Content-Length: abc\r\n\r\n", "Content-Length: 0\r\n\r\n", "X-Other: 1\r\n\r\n", "Content-Length: 99999999999\r\n\r\n", "Content-Length: 20000000\r\n\r\n", "Content-Length: -5\r\n\r\n", "\r\n", "Content-Type: x\r\nContent-Length: 2\r\n\r\n{}"}).Draw(rt, "hdr")}
+		if k := rapid.IntRange(0, 5).Draw(rt, "framekind"); k == 0 {
+			feat["lowercase_header"] = true
+			return Msg{Kind: "request_lowercase_header", ID: id, Method: rapid.SampledFrom([]string{"shutdown", "no/such/method"}).Draw(rt, "method")}
+		} else if k == 1 {
+			feat["oversized_frame"] = true
+			return Msg{Kind: "oversized_frame"}
+		}
+		return Msg{Kind: "bad_header", Raw: rapid.SampledFrom([]string{"Content-Length: abc\r\n\r\n", "Content-Length: 0\r\n\r\n", "X-Other: 1\r\n\r\n", "Content-Length: -5\r\n\r\n", "\r\n", "Content-Type: x\r\nContent-Length: 2\r\n\r\n{}"}).Draw(rt, "hdr")}
 	default:
 		return Msg{Kind: "initialized"}
 	}
